@@ -13,8 +13,7 @@ Definition fW (w : W) : Z := snd w.
 (* [c_hooked] = false marks the listed finding: a Property(observe=...) added with add_trait /
    add_class_trait gets no observers at all (has_traits.add_trait ignores the metadata); the interface
    check (code 8) is then meaningless and skipped, the model follows the code with 0 deliveries, and
-   the law — the unrestricted property — fails on those cases.  The flag is also false for the cases of the
-   candidate finding F24 (an optional dependency defined later with add_trait: that step delivers nothing). *)
+   the law — the unrestricted property — fails on those cases. *)
 Record case := mkCase {
   c_cached : bool;
   c_hooked : bool;
